@@ -454,7 +454,7 @@ func errClass(err error) string {
 
 func init() {
 	register(&Check{ID: "C13",
-		Rule: "small-scope enumeration on the real codec: (a) round trip of every method in the linked protobuf registry (dev.ZorumsService, ordering.Gorums) x {request, response} x message values (zero, each scalar field set to small/extreme/non-ASCII values) x MessageID in {0,1,2^64-1} x Status in {absent, codes 0..16 x 3 texts, with one Any detail}; (b) decoding of every byte string of length <= 2 (quick) / <= 3 sharded (thorough) in both directions, and of every prefix, single-byte substitution {00,01,7f,80,ff} at every offset, perturbed length prefixes, swapped parts and every full name of the global registry (all descriptor kinds) plus unknown / malformed names in the method field of valid frames; an outcome is a distinct (decoder result class) or (message type, direction, size class)",
+		Rule: "small-scope enumeration on the real codec: (a) round trip of every method in the linked protobuf registry (dev.ZorumsService, ordering.Gorums) x {request, response} x message values (zero, each scalar field set to small/extreme/non-ASCII values) x MessageID in {0,1,2^64-1} x Status in {absent, codes 0..16 x 3 texts, with one Any detail}; (b) decoding of every byte string of length <= 2 (quick) / <= 3 sharded (thorough) in both directions, and of every prefix, single-byte substitution {00,01,7f,80,ff} at every offset, perturbed length prefixes, swapped parts and every full name of the global registry (all descriptor kinds) plus unknown / malformed names in the method field of valid frames; (c) end to end: every status code x texts through a live stream, every sequence of 2..3 (thorough 4) calls on one stream over a 4-status alphabet {OK, NotFound a, PermissionDenied with empty text, NotFound b with one detail} - each caller sees exactly its own status - and 11 hostile frames injected into a live stream in both directions; an outcome is a distinct (decoder result class) or (message type, direction, size class)",
 		Gen: func(tier string) []Instance {
 			out := []Instance{{Name: "codec/roundtrip", Seq: c13RoundTrip}}
 			parts := 16
@@ -505,6 +505,89 @@ func c13Status(code codes.Code, text string) func() {
 			}
 		}
 		mc.Outcome("code=%v", code)
+	}
+}
+
+// c13StatusSeq: a sequence of RPCs on one node's stream, each answered with its own scripted status.
+// Every call must see exactly its own result: nothing of an earlier response may leak into a later one.
+type scriptedStatus struct {
+	code    codes.Code
+	text    string
+	details int
+}
+
+func (x scriptedStatus) String() string { return fmt.Sprintf("%d/%q/%d", x.code, x.text, x.details) }
+
+var statusAlphabet = []scriptedStatus{
+	{codes.OK, "", 0},
+	{codes.NotFound, "a", 0},
+	{codes.PermissionDenied, "", 0},
+	{codes.NotFound, "b", 1},
+}
+
+func (x scriptedStatus) err() error {
+	if x.code == codes.OK {
+		return nil
+	}
+	st := grpcstatus.New(x.code, x.text)
+	for i := 0; i < x.details; i++ {
+		if d, err := st.WithDetails(&emptypb.Empty{}); err == nil {
+			st = d
+		}
+	}
+	return st.Err()
+}
+
+func c13StatusSeq(seq []int, last string) func() {
+	return func() {
+		w := world.New(world.Opts{N: 1})
+		if w.Cfg == nil {
+			return
+		}
+		script := map[int]scriptedStatus{}
+		w.Handle = func(h *world.HCtx) world.Reply { return world.Reply{Err: script[h.Tok].err()} }
+		var calls []*world.Call
+		for i, x := range seq {
+			kind := "GRPCCall"
+			if i == len(seq)-1 {
+				kind = last
+			}
+			c := w.NewCall(kind)
+			c.Node = 1
+			script[c.Tok] = statusAlphabet[x]
+			calls = append(calls, c)
+			w.Start(c)
+			mc.Quiesce()
+		}
+		key := fmt.Sprint(seq)
+		for i, c := range calls {
+			want := statusAlphabet[seq[i]]
+			if !c.Returned {
+				fail("C13/status-sequence", key, "call %d of the sequence did not return", i+1)
+				continue
+			}
+			if want.code == codes.OK {
+				if c.Err != nil {
+					fail("C13/status-sequence", key, "call %d of %v was answered without error, the caller got %v", i+1, seq, c.Err)
+				}
+				continue
+			}
+			if c.Err == nil {
+				fail("C13/status-sequence", key, "call %d of %v was answered with status %v, the caller got no error", i+1, seq, want)
+				continue
+			}
+			if c.Kind != "GRPCCall" {
+				if !strings.Contains(c.Err.Error(), fmt.Sprintf("code = %s desc = %s", want.code, want.text)) {
+					fail("C13/status-sequence", key, "call %d of %v: status %v not in %q", i+1, seq, want, c.Err.Error())
+				}
+				continue
+			}
+			st, ok := grpcstatus.FromError(c.Err)
+			if !ok || st.Code() != want.code || st.Message() != want.text || len(st.Details()) != want.details {
+				fail("C13/status-sequence", key, "call %d of %v was answered with status %v, the caller got (%v, %q, %d details)", i+1, seq, want, st.Code(), st.Message(), len(st.Details()))
+			}
+		}
+		mc.Outcome("seq=%v", seq)
 	}
 }
 
@@ -580,6 +663,30 @@ func c13E1(tier string) []Instance {
 				continue
 			}
 			out = append(out, Instance{Name: fmt.Sprintf("codec/status-e2e/code=%d/text=%q", c, text), Bound: 0, Root: c13Status(c, text)})
+		}
+	}
+	maxSeq := 3
+	if thorough(tier) {
+		maxSeq = 4
+	}
+	for l := 2; l <= maxSeq; l++ {
+		seq := make([]int, l)
+		for {
+			for _, last := range []string{"GRPCCall", "QuorumCall"} {
+				out = append(out, Instance{Name: fmt.Sprintf("codec/status-sequence/%v/last=%s", seq, last), Bound: 0, Root: c13StatusSeq(append([]int{}, seq...), last)})
+			}
+			p := l - 1
+			for p >= 0 {
+				seq[p]++
+				if seq[p] < len(statusAlphabet) {
+					break
+				}
+				seq[p] = 0
+				p--
+			}
+			if p < 0 {
+				break
+			}
 		}
 	}
 	n := len(hostileFrames(gorums.NewCodec()))
